@@ -93,6 +93,17 @@ UNITS.update({
         "complete": "unbounded: every centre mu (including non-finite), every width, every byte stream",
         "timeout": 600,
     },
+    "U-GS": {
+        "backend": "verus",
+        "template": "contracts/gs.vc",
+        "search": "search-keygen",
+        "trusted": ["Verus 0.2026.09.13 / Z3; vstd",
+                    "UNCHECKED: doubles, complex doubles and the complex FFT treated as uninterpreted functions (only commutativity of + and max assumed); nothing is proved about numerical values"],
+        "assumption_lines": [r"external_body", r"axiom_commutative", r"axiom_padd_commutative"],
+        "dropped": [],
+        "complete": "unbounded: every f, g of equal length",
+        "timeout": 300,
+    },
     "U-CODEC-K": {
         "backend": "kani",
         "functions": ["encoding.rs: compress_coefficient"],
@@ -312,8 +323,8 @@ PROPS.update({
     "C02": {
         "title": "verify accepts exactly the signatures the Falcon specification accepts",
         "level": "proof",
-        "quick": ["U-VERIFY", "U-CODEC", "U-CODEC-K", "U-H2P", "U-NTT-CORE", "U-NTT-POLY", "U-TAB", "U-FELT"],
-        "thorough": [],
+        "quick": ["U-VERIFY", "U-CODEC", "U-CODEC-K", "U-H2P", "U-NTT-CORE", "U-NTT-POLY", "U-TAB", "U-FELT", "U-PK"],
+        "thorough": ["U-SIG"],
         "undecided_clauses": ["that the sha3 crate computes SHAKE-256 (assumed)"],
         "assumptions": [],
         "level_text": "verify's postcondition is the specification function spec_verify (Algorithm 16 with Algorithms 3 and 18, bounds 34034726 / 70265242 typed from the property) for every message, signature object and public key satisfying the type invariants; proved by Verus on the extracted text of verify over the contracts of its callees, each of which is discharged on the real code in its own unit (decompress, hash_to_point, the NTT, Felt arithmetic, tables). Boundary behaviour (norm = bound-1, bound, bound+1) is part of the specification function; a concrete boundary witness is built by the replay tool.",
@@ -364,7 +375,7 @@ PROPS.update({
     "C04": {
         "title": "Every generated key pair is a valid NTRU trapdoor with in-range tree leaves",
         "level": "other",
-        "quick": ["U-KEYGEN", "U-NTT-POLY", "U-NTT-CORE", "U-BATCHINV", "U-TAB", "U-FELT"],
+        "quick": ["U-KEYGEN", "U-GS", "U-NTT-POLY", "U-NTT-CORE", "U-BATCHINV", "U-TAB", "U-FELT"],
         "thorough": ["U-FELT-INV"],
         "undecided_clauses": ["f*G - g*F = q over Z[X]/(X^n+1): NTRUSolve (BigInt tower, floating-point Babai reduction) and the unchecked `as i16` narrowing are outside any contract here; no failing seed is known, so this is undecided, not a finding",
                               "the leaf range [sigma_min, sigma_max] of the signing tree (floating-point LDL)",
